@@ -65,19 +65,19 @@ Proof.
     + apply N.eqb_neq in E. destruct (bprec_cases o) as [?|[?|[?|[?|[?|[?|?]]]]]]; lia.
 Qed.
 
-Lemma strip_neg_wp : forall t t', wp t = true -> 13 <= level t -> strip_neg t = Some t' ->
-  wp t' = true /\ 13 <= level t'.
+Lemma strip_neg_wp : forall t t' n, (n = 12 \/ n = 13) -> wp t = true -> n <= level t -> strip_neg t = Some t' ->
+  wp t' = true /\ n <= level t'.
 Proof.
-  induction t as [n|txt bits|s|t IHt|t IHt|o t1 IHt1 t2 IHt2|nl c IHc x IHx y IHy|f t IHt|f|nl t IHt]; intros t' Hw Hl Hs; simpl in *; try discriminate.
+  induction t as [m|txt bits|s|t IHt|t IHt|o t1 IHt1 t2 IHt2|nl c IHc x IHx y IHy|f t IHt|f|nl t IHt]; intros t' n Hn Hw Hl Hs; simpl in *; try discriminate.
   - (* CNeg *) inversion Hs; subst. apply andb_true_iff in Hw. destruct Hw as [Hw _].
     apply andb_true_iff in Hw. destruct Hw as [Hw Hl1]. apply N.leb_le in Hl1. unfold PREC_UNARY in *. split; [exact Hw | lia].
   - (* CBin *)
     destruct (strip_neg t1) as [l'|] eqn:E; [|discriminate]. inversion Hs; subst.
     apply andb_true_iff in Hw. destruct Hw as [Hw Hl2]. apply andb_true_iff in Hw. destruct Hw as [Hw Hl1].
     apply andb_true_iff in Hw. destruct Hw as [Hk1 Hk2]. apply N.leb_le in Hl1.
-    destruct (IHt1 l' Hk1) as [W L]; [lia | reflexivity |].
-    split; [|simpl; exact Hl]. simpl. rewrite W, Hk2, Hl2. simpl. rewrite andb_true_r. apply N.leb_le.
-    destruct (bprec_cases o) as [?|[?|[?|[?|[?|[?|?]]]]]]; lia.
+    assert (Ho : bprec o = 12 \/ bprec o = 13) by (destruct (bprec_cases o) as [?|[?|[?|[?|[?|[?|?]]]]]]; lia).
+    destruct (IHt1 l' (bprec o) Ho Hk1 Hl1 eq_refl) as [W L].
+    split; [|simpl; exact Hl]. simpl. rewrite W, Hk2, Hl2. simpl. rewrite andb_true_r. apply N.leb_le. exact L.
   - (* CCond *) unfold PREC_COND in *. lia.
 Qed.
 
@@ -247,13 +247,17 @@ Section Node.
         repeat split; lia.
   Qed.
 
+  Definition good12 (t : cexp) : Prop := wp t = true /\ 12 <= level t.
+  Lemma good13_12 : forall t, good13 t -> good12 t.
+  Proof. intros t [W L]. split; auto. lia. Qed.
+
   Lemma add_term_inv : forall k v t, add_term cf pr k v = Ok t -> cguard k = true -> supported_num v = true ->
-    add_term_ok k v = true -> good13 t.
+    add_term_ok k v = true -> good12 t.
   Proof.
     intros k v t H G S A. unfold add_term in H. unfold add_term_ok in A.
     destruct (num_is v 1).
-    - destruct (plt_inv _ _ 13 _ H G A) as [W [L _]]; [lia|]. split; auto.
-    - destruct (num_is v (-1)).
+    - destruct (plt_inv _ _ 12 _ H G A) as [W [L _]]; [lia|]. split; auto.
+    - apply good13_12. destruct (num_is v (-1)).
       + bind_ok H t0 E. inversion H; subst. apply andb_true_iff in A. destruct A as [A1 A2].
         destruct (plt_inv _ _ 13 _ E G A1) as [W [L [_ M]]]; [lia|].
         apply neg_graft_wp; auto. apply M. apply orb_true_iff in A2. destruct A2 as [A2|A2]; [left; exact A2|].
@@ -264,17 +268,15 @@ Section Node.
         destruct (graft_wp BMul c t0 Wc W) as [W2 L2]; simpl; auto. split; auto. rewrite L2. simpl. lia.
   Qed.
 
-  Definition good12 (t : cexp) : Prop := wp t = true /\ 12 <= level t.
-
-  Lemma add_join_inv : forall acc t, (match acc with Some a => good12 a | None => True end) -> good13 t ->
+  Lemma add_join_inv : forall acc t, (match acc with Some a => good12 a | None => True end) -> good12 t ->
     good12 (add_join acc t).
   Proof.
-    intros acc t Ha [W L]. unfold add_join. destruct acc as [a|]; [|split; auto; lia].
+    intros acc t Ha [W L]. unfold add_join. destruct acc as [a|]; [|split; auto].
     destruct Ha as [Wa La].
     destruct (strip_neg t) as [t'|] eqn:E.
-    - destruct (strip_neg_wp _ _ W L E) as [W' L'].
-      split; [apply wp_bin; repeat split; auto; simpl; lia | simpl; lia].
-    - split; [apply wp_bin; repeat split; auto; simpl; lia | simpl; lia].
+    - destruct (strip_neg_wp _ _ 12 (or_introl eq_refl) W L E) as [W' L'].
+      destruct (graft_wp BSub a t' Wa W') as [W2 L2]; simpl; auto. split; auto. rewrite L2. simpl. lia.
+    - destruct (graft_wp BAdd a t Wa W) as [W2 L2]; simpl; auto. split; auto. rewrite L2. simpl. lia.
   Qed.
 
   Lemma add_terms_inv : forall l acc t, add_terms cf pr acc l = Ok t ->
@@ -285,7 +287,7 @@ Section Node.
     induction l as [|[k v] r IH]; intros acc t H Ha Hl; simpl in H.
     - destruct acc; [inversion H; subst; exact Ha | discriminate].
     - bind_ok H t0 E. destruct (Hl (k, v) (or_introl eq_refl)) as [G [S A]]. simpl in G, S, A.
-      pose proof (add_term_inv _ _ _ E G S A) as G13.
+      pose proof (add_term_inv _ _ _ E G S A) as G12t.
       apply (IH _ _ H).
       + apply add_join_inv; auto.
       + intros p Hp. apply Hl. right. exact Hp.
